@@ -14,10 +14,10 @@ def main(tier, seed, args):
                   'outside': 'more sets/parts/crashes/faults'}
     rep.assumptions = ['node model (env_node.py)', 'an outgoing attempt exists once a part exists or a pay command was issued']
     rep.trusted = ['mirsym', 'z3', 'node model', 'tokio contracts']
-    budget = 100 if tier == 'quick' else 1500
+    budget = 400 if tier == 'quick' else 3000
     configs = []
-    for name, cfg, pc, kw in scen_payflow.standard_configs(tier, crash=True, faults=1, fault_methods=('listsendpays', 'waitsendpay', 'listdatastore', 'datastore')):
-        configs.append((name, cfg, pc, [NoFailWhileLive(), Coverage(['response:Fail'] if 'succeeded' not in name else ['response:Resolve'])], kw))
+    for name, cfg, pc, kw in scen_payflow.standard_configs(tier, two_sets=('paid', 'failed'), crash=True, faults=1, fault_methods=('listsendpays', 'waitsendpay', 'listdatastore', 'datastore')):
+        configs.append((name, cfg, pc, [NoFailWhileLive(), Coverage(['response:Resolve'] if ('succeeded' in name or 'first one paid' in name) else ['response:Fail'])], kw))
     scen_common.run_configs(rep, PID, c, configs, budget)
     finish(rep, [c], './check C02 --tier ' + tier)
 
